@@ -26,7 +26,7 @@ META = {
             "on in the model TLC shows the round trip holds on the whole bounded domain. Exploration level: family R is the "
             "weakest fit of a TLA+ approach (DESIGN.md section 7): the spec contributes the structured exhaustive input "
             "space, the model of precedence/grouping and the span predicate; text equality is decided in Go.",
-    "note": "Bounds: shapes <= 5 nodes quick / 6 thorough, <= 2 args in enumerated shapes, queries <= 3/5 leaves, abstract "
+    "note": "Bounds: shapes <= 5 nodes quick / 6 thorough, <= 2 args in enumerated shapes, queries <= 3/4 leaves, abstract "
             "strings <= 2/3 characters; literal values are classes (tables in tools/props/exprlib.py). Domain: floats with 2 "
             "decimals, lat/lngs with <= 6 decimals, symbols/keys/namespaces the lexer accepts, string tag values, no "
             "collection literals, no literal kinds the printer calls broken-value. Trusted: TLC, the Go adapter's "
@@ -41,35 +41,60 @@ CONSTANTS
   MaxArgs = %(args)d
   MaxQSize = %(qsize)d
   MaxStr = %(strlen)d
+  Kinds = %(kinds)s
   ExprHeads = TRUE
-  GroupQueries = %(fixed)s
-  GroupPipeHead = %(fixed)s
-  LexerUnescapes = %(fixed)s
-  EscapeTagValues = %(fixed)s
+  GroupQueries = %(gq)s
+  GroupPipeHead = %(gp)s
+  LexerUnescapes = %(lu)s
+  EscapeTagValues = %(et)s
 %(check)s
 CHECK_DEADLOCK FALSE
 """
 
 
+ALL_KINDS = '{"shape", "query", "string", "tagvalue", "queryvalue"}'
+
+
 def bounds(ctx):
-    return dict(size=ctx.pick(5, 6), args=2, qsize=ctx.pick(3, 5), strlen=ctx.pick(2, 3))
+    return dict(size=ctx.pick(5, 6), args=2, qsize=ctx.pick(3, 4), strlen=ctx.pick(2, 3))
+
+
+def code_variant(prop="C20"):
+    """The printer/lexer variant of ExprTree.tla that models the code under test: a repair is taken to be absent
+    exactly while its findings are still listed as `known` in /verif/known/C20.jsonl."""
+    known = X.known_keys(prop)
+
+    def absent(*prefixes):
+        return any(k.startswith(p) for k in known for p in prefixes)
+    tf = lambda b: "TRUE" if b else "FALSE"
+    gp = '"none"' if absent("pipeline-head:pipelined-call/") else '"direct"' if absent("pipeline-head:wrapped-pipelined-call/") else '"any"'
+    return dict(gq=tf(not absent("query-precedence:")), gp=gp,
+                lu=tf(not absent("string-escape:")),
+                et=tf(not absent("tag-value:unquoted", "tag-value:empty", "query-tag-value:unquoted", "query-tag-value:empty")))
+
+
+ALL_FIXED = dict(gq="TRUE", gp='"any"', lu="TRUE", et="TRUE")
 
 
 def enumerate_with_tlc(ctx):
     b = bounds(ctx)
-    asis = CFG % dict(b, fixed="FALSE", check="CONSTRAINT Emit")
+    variant = code_variant()
+    ctx.extra_cov["model_variant_of_code_under_test"] = variant
+    # TLC computes initial states on one thread: the enumerations run as separate TLC processes side by side
+    jobs = []
+    for kinds in ('{"shape"}', '{"query", "string", "tagvalue", "queryvalue"}'):
+        cfg = CFG % dict(b, check="CONSTRAINT Emit", kinds=kinds, **variant)
+        jobs.append(("ExprTree", dict(cfg_text=cfg, timeout=ctx.pick(300, 1500), heap="6g")))
     # design level: with the proposed repairs the round trip holds for everything the grammar can express
     fb = dict(b)
-    fb["size"] = ctx.pick(4, 5)     # the repaired model is checked one size below the enumeration (it emits nothing)
-    fixed = CFG % dict(fb, fixed="TRUE", check="INVARIANT RoundTrips")
-    r_asis, r_fixed = X.tlc_parallel(ctx, [
-        ("ExprTree", dict(cfg_text=asis, timeout=ctx.pick(300, 2400), heap="6g")),
-        ("ExprTree", dict(cfg_text=fixed, timeout=ctx.pick(300, 2400), heap="4g", count=False)),
-    ])
-    lines = r_asis.lines.get("CASE", [])
+    fb["size"] = ctx.pick(4, 6)     # quick: one size below the enumeration (it emits nothing)
+    fixed = CFG % dict(fb, check="INVARIANT RoundTrips", kinds=ALL_KINDS, **ALL_FIXED)
+    jobs.append(("ExprTree", dict(cfg_text=fixed, timeout=ctx.pick(300, 1500), heap="4g", count=False)))
+    rs = X.tlc_parallel(ctx, jobs)
+    lines = rs[0].lines.get("CASE", []) + rs[1].lines.get("CASE", [])
     if len(lines) < 1000:
         raise Exception("ExprTree export too small: %d" % len(lines))
-    return lines, r_fixed
+    return lines, rs[2]
 
 
 def build_cases(ctx, lines):
@@ -106,6 +131,11 @@ def build_cases(ctx, lines):
         add(X.Q(q), [2, 4 + rng.randrange(1 << 20)], None, None, "query+classes")
         if rng.random() < ctx.pick(0.25, 1.0):
             add(X.CALL(X.S("find"), [X.Q(q)]), [3], None, None, "query+classes")
+    # shapes first found by TLC at the thorough bounds, kept at every tier
+    inner = X.CALL(X.S("f"), [X.S("x")], pipe=True)
+    for head in (X.CALL(inner, []), X.CALL(X.CALL(inner, []), []), X.CALL(X.LAM([], X.S("x")), [])):
+        add(X.CALL(head, [X.S("a")], pipe=True), [1, 2], None, None, "regression-shape")
+        add(X.LAM(["y"], X.CALL(head, [X.INT(1)], pipe=True)), [3], None, None, "regression-shape")
     # 4. every literal class in every context
     leaves = []
     leaves += [X.S(s) for s in X.SYMBOLS]
